@@ -3,6 +3,7 @@ import BV.Drv.C19
 import BV.Drv.C16
 import BV.Drv.C15
 import BV.Drv.Ash
+import BV.Drv.C05
 
 def dispatch (line : String) : String :=
   match (line.trimAscii.toString.splitOn " ").filter (· ≠ "") with
@@ -13,6 +14,7 @@ def dispatch (line : String) : String :=
   | "c03" :: rest => BV.Drv.Ash.c03 rest
   | "c04" :: rest => BV.Drv.Ash.c04 rest
   | "c02" :: rest => BV.Drv.Ash.c02 rest
+  | "c05" :: rest => BV.Drv.C05.handle rest
   | _ => "bad-op"
 
 partial def loop (h : IO.FS.Stream) (out : IO.FS.Stream) : IO Unit := do
